@@ -353,4 +353,11 @@ Proof.
     injection Hw as <-. cbn [b_lines]. apply (Hfin pss2 cps2 _ _ _ Hst2 Hc2 Er).
 Qed.
 
+Corollary wrap_words text w sep ct b : collapse_space text sep = Ok ct -> all_safe ct -> ct <> [] -> wrap text w sep = Ok b ->
+  exists pss, b_lines b = map ln pss /\ cov (concat pss) (wds (clusters ct) []).
+Proof.
+  intros Hc Hs Hne Hw. destruct (wrap_structure text w sep ct b Hc Hs Hne Hw) as (pss & H2 & _ & _ & H4).
+  exact (ex_intro _ pss (conj H2 H4)).
+Qed.
+
 End C06R.
